@@ -303,6 +303,25 @@ PLANS = {
         "assumptions": ["Go's layout language is not modelled: the driver renders each date from its fields for a fixed list of layouts",
                         "Int64.tla, Encodings.tla; TLC, Json module, harness recording"],
     },
+    "C20": {
+        "mc": {"quick": [{"module": "MCGen", "cfg": "cfg/MCGen.quick.cfg"}],
+               "thorough": [{"module": "MCGen", "cfg": "cfg/MCGen.thorough.cfg", "timeout": 3400}]},
+        "drive": {"quick": [{"args": ["gen", "-n", "12000", "-depth", "8", "-seed", "{seed}"]}],
+                  "thorough": [{"args": ["gen", "-n", "300000", "-depth", "12", "-seed", "{seed}"]}]},
+        "judge": {"module": "JudgeGen", "cfg": "JudgeGen.cfg"},
+        "replay_args": ["gen", "-n", "0"],
+        "engine": "generator",
+        "rule": "one case = (seed, level 0..depth and occasionally up to 53, result type, the 8 combinations of EnableVariable / "
+                "EnableCondition / EnableTryEval, one of four variable sets incl. a zero-valued number and DNE variables) run "
+                "through the real GenerateRandomExpr with every draw recorded; judged: reported result = Den of the generated "
+                "tree (Kleene when DNE variables occur), only given variables occur, the expression compiles, evaluates without "
+                "failing, and the engine agrees; number-typed expressions whose intermediate values may leave 30 bits are counted "
+                "as unjudged (wide arithmetic), never as violations; non-trivial = trees of five or more nodes",
+        "sample": lambda o: {"level": o["level"], "options": {k: o["cfg"][k] for k in ("var", "cond", "try", "type")}, "expr": o["src"][:200],
+                             "reported": o.get("res"), "draws": o["draws"][:12]},
+        "assumptions": ["the generator draws only through rand.Rand.Intn (31-bit path), recorded by a wrapping rand.Source",
+                        "TLC, Json module, harness recording and S-expression reader"],
+    },
 }
 
 ENGINES = [
@@ -320,4 +339,7 @@ ENGINES.append({"name": "frontend", "path": "spec/Lexer.tla, Formatter.tla, Pars
 ENGINES.append({"name": "operators", "path": "spec/Operators.tla, Int64.tla, Encodings.tla, MCOps.tla, MCVer.tla, JudgeOps.tla + harness/fam_ops.go",
                 "serves_properties": ["C17", "C18", "C19"],
                 "kind_free_text": "operator table transcribed case by case; laws model-checked on the table; single-operator expressions judged against it (int64 via limbs)"})
+ENGINES.append({"name": "generator", "path": "spec/Generator.tla, MCGen.tla, JudgeGen.tla + harness/fam_gen.go",
+                "serves_properties": ["C20"],
+                "kind_free_text": "GenerateRandomExpr as a consumer of a draw script; model-checked over scripts; real runs with recorded draws replayed through the model"})
 NOT_APPLICABLE = {}
